@@ -1280,16 +1280,19 @@ def ls_selector_qr(decay, ls_list):
                     if (-l1, -l2) in hel_list:
                         continue
                 hel_list.append((l1, l2))
-    from sympy import Matrix
+    from sympy import Matrix, Rational
     from sympy.physics.quantum.cg import CG
+
+    def r(x):  # exact (half-)integers: float spins leave round-off in the QR decomposition
+        return Rational(_spin_int(2 * x), 2)
 
     cg = []
     for l1, l2 in hel_list:
         tmp = []
         for l, s in ls_list:
-            delta = l1 - l2
-            coeff = CG(l, 0, s, delta, p0.J, delta)
-            coeff = coeff * CG(p1.J, l1, p2.J, -l2, s, delta)
+            delta = r(l1 - l2)
+            coeff = CG(r(l), 0, r(s), delta, r(p0.J), delta)
+            coeff = coeff * CG(r(p1.J), r(l1), r(p2.J), r(-l2), r(s), delta)
             tmp.append(coeff.doit())
         cg.append(tmp)
     cg = Matrix(cg)
